@@ -68,6 +68,17 @@ func runC17(c *fw.Ctx, idx int) fw.Result {
 					res.Fail("translate-nonstrict", fmt.Sprintf("Translate(%s,false) = %q,%v; expected %c", codon, t, err, want), nil, nil)
 				}
 				// strict translation errors exactly where non-strict gives X
+				// the product of a codon must not depend on its neighbours
+				for _, ctx := range []string{"ATN", "AAA"} {
+					wantCtx, _ := model.TranslateAmbig(ctx)
+					res.Evals += 2
+					if t2, err2 := alphabet.Translate(ctx+codon, false); err2 != nil || t2 != string([]byte{wantCtx, want}) {
+						res.Fail("translate-context", fmt.Sprintf("Translate(%s,false) = %q,%v; expected %c%c (a codon's product must not depend on the preceding codon)", ctx+codon, t2, err2, wantCtx, want), nil, nil)
+					}
+					if t3, err3 := alphabet.Translate(codon+ctx, false); err3 != nil || t3 != string([]byte{want, wantCtx}) {
+						res.Fail("translate-context", fmt.Sprintf("Translate(%s,false) = %q,%v; expected %c%c", codon+ctx, t3, err3, want, wantCtx), nil, nil)
+					}
+				}
 				ts, errs := alphabet.Translate(codon, true)
 				if want == 'X' {
 					if errs == nil {
@@ -175,6 +186,40 @@ func runC17(c *fw.Ctx, idx int) fw.Result {
 	default:
 		// record-level involutions on random sequences
 		r := fw.NewRng(c.Seed, "C17", idx)
+		// random multi-codon sequences: translation is the concatenation of the per-codon products
+		for k := 0; k < 40; k++ {
+			n := r.Range(0, 30)
+			var sb, wb []byte
+			anyX := false
+			for i := 0; i < n; i++ {
+				var cod [3]byte
+				for j := range cod {
+					if r.Chance(0.25) {
+						cod[j] = iupac15[r.Intn(15)]
+					} else {
+						cod[j] = "ACGT"[r.Intn(4)]
+					}
+				}
+				w, _ := model.TranslateAmbig(string(cod[:]))
+				if w == 'X' {
+					anyX = true
+				}
+				sb = append(sb, cod[:]...)
+				wb = append(wb, w)
+			}
+			res.Evals += 2
+			res.Count("random_multi_codon_sequences", 1)
+			if t, err := alphabet.Translate(string(sb), false); err != nil || t != string(wb) {
+				res.Fail("translate-sequence", fmt.Sprintf("Translate(%s,false) = %q,%v; per-codon expansion gives %q", sb, t, err, wb), nil, nil)
+			}
+			t, err := alphabet.Translate(string(sb), true)
+			if anyX != (err != nil) || (!anyX && t != string(wb)) {
+				res.Fail("translate-sequence-strict", fmt.Sprintf("Translate(%s,true) = %q,%v; per-codon expansion gives %q", sb, t, err, wb), nil, nil)
+			}
+			if _, err := alphabet.Translate(string(sb)+"A", false); err == nil {
+				res.Fail("translate-length", "a sequence whose length is not a multiple of 3 was translated without error", nil, nil)
+			}
+		}
 		for k := 0; k < 50; k++ {
 			L := r.Range(0, 200)
 			s := gen.RandSeq(r, L, gen.SeqProfile{PAmbig: 0.3, PGap: 0.1, PQ: 0.05, PLower: 0.3})
